@@ -44,7 +44,7 @@ def check(ctx, tier):
     W.report(ctx, tk, "C08.i", [ctx.func(q) for q in fs])
     tk.purity("C08.p", [ctx.func(q) for q in ['arrayfunctions.concatenate', 'arrayfunctions.where', 'arrayfunctions.zeros_like', 'arrayfunctions.ones_like', 'arrayfunctions.empty_like', 'raggedarray.RaggedArray.nonzero', 'raggedarray.RaggedArray._as_padded_matrix', 'raggedarray.indexablearray.IndexableArray.subset', 'raggedarray.raggedslice.ragged_slice']], "the operation does not write into its operands' buffers", content_only=True)
     from .. import hazards as _hz, scopes as _sc
-    _hz.generic(ctx, tk, "C08.z", _sc.scope(tk, "C08", depth=2))
+    _hz.generic(ctx, tk, "C08.z", _sc.scope(tk, "C08", depth=1))
     return {}
 
 
